@@ -25,6 +25,9 @@ CONSTANTS
   JumpToFirstAvailable = TRUE
   ReportOnlyIfBitSet = FALSE
   ResendWithoutCheck = FALSE
+  RejoinAtIndex = FALSE
+  DropPausePair = FALSE
+  TrackRepeat = FALSE
 SPECIFICATION Spec
 VIEW View
 PROPERTIES Steps
